@@ -20,11 +20,11 @@ REQUIRED = {
     "quick": {"orders_judged": 12000, "class/target_far_above": 500, "class/target_far_below": 500,
               "class/target_on_edge": 200, "class/target_inside": 1000, "class/target_market_order": 100,
               "class/non_target_outside_band": 1000, "class/disabled_rule_order": 200,
-              "trades_on_target_checked": 500},
+              "trades_on_target_checked": 500, "class/rule_set_up_again_after_a_refused_first_attempt": 15},
     "thorough": {"orders_judged": 400000, "class/target_far_above": 15000, "class/target_far_below": 15000,
                  "class/target_on_edge": 6000, "class/target_inside": 30000, "class/target_market_order": 3000,
                  "class/non_target_outside_band": 30000, "class/disabled_rule_order": 6000,
-                 "trades_on_target_checked": 15000},
+                 "trades_on_target_checked": 15000, "class/rule_set_up_again_after_a_refused_first_attempt": 450},
 }
 
 
@@ -90,6 +90,9 @@ def gen_case(rng, tier, idx):
     for name in rules:
         rng.choice(cfg["simulation"]["sessions"][:1] if rng.random() < 0.7 else cfg["simulation"]["sessions"]) \
             .setdefault("events", []).append(name)
+    from ..runnerdrive import add_first_attempts
+
+    add_first_attempts(rng, cfg, 0.2)
     return {"drive": "runner", "seed": rng.randrange(1 << 31), "config": cfg, "profile": "pricelimit"}
 
 
@@ -239,6 +242,8 @@ def run_case(case, res):
     taps.install()
     mon = C15Monitor(res, case)
     out = run_runner_case(case, [mon.on_event])
+    for name, refused, exc in out.first_attempts:
+        res.count("class/rule_set_up_again_after_a_refused_first_attempt" if refused else "first_attempt_not_refused")
     if out.error is not None:
         res.count("runner_case_aborted:" + type(out.error).__name__)
         # the rule promises that orders are accepted (clipped or unchanged), never refused
